@@ -176,6 +176,7 @@ func caseInput() M { return M{"in": "x"} }
 
 // runCase executes one case on the real implementation and returns (findings, node executions, outcome class).
 func runCase(c Case) (fs []finding, execs int64, outcome string, err error) {
+	sameKeys = c.SameKeys
 	w := &world{}
 	defer func() { execs = w.execs.Load() }()
 	ctx := context.Background()
